@@ -538,11 +538,11 @@ theorem status_after_flush {g : Ghost} {r r' : Raw} {rc : Bool} {rs : Nat} {wh :
   · exact st.st200
   · intro _; exact hst
 
-theorem respFlush_inv (m : Nat) (g : Ghost) (s : St) (h : Inv m g s) :
-    Inv m g.flushed (respFlush s) := by
+theorem writerFlush_inv (m : Nat) (g : Ghost) (s : St) (h : Inv m g s) :
+    Inv m g.flushed (writerFlush s) := by
   cases h with
   | plain h st p =>
-    simp only [respFlush, h]
+    simp only [writerFlush, h]
     refine .plain rfl ?_ ?_
     · refine status_after_flush st g.flushed rfl rfl ?_ ?_ ?_ ?_
       · simp [Raw.flush, Raw.writeHeader_committed]
@@ -567,7 +567,7 @@ theorem respFlush_inv (m : Nat) (g : Ghost) (s : St) (h : Inv m g s) :
     have hsnap : lenient (canon [.gzHeader, .gzData w.buffer, .gzSync]) = g.W := by
       simp [canon, gunzipItems, lenient, bf.buf]
     by_cases hwh : w.wroteHeader = true
-    · simp only [respFlush, h, grwFlush, bf.exc, Bool.not_false, if_true, startGzip, gzWrite,
+    · simp only [writerFlush, h, grwFlush, bf.exc, Bool.not_false, if_true, startGzip, gzWrite,
         gzHeaderIfNeeded, bf.gz, emit, List.foldl, Bool.false_eq_true, if_false, gzFlush,
         Raw.write, Raw.writeHeader, Raw.flush, bf.rc, bf.body, bf.snaps, hwh, List.nil_append,
         List.cons_append]
@@ -585,7 +585,7 @@ theorem respFlush_inv (m : Nat) (g : Ghost) (s : St) (h : Inv m g s) :
           rfl
         · simp [Ghost.flushed]
     · have hwh' : w.wroteHeader = false := by simpa using hwh
-      simp only [respFlush, h, grwFlush, bf.exc, Bool.not_false, if_true, startGzip, gzWrite,
+      simp only [writerFlush, h, grwFlush, bf.exc, Bool.not_false, if_true, startGzip, gzWrite,
         gzHeaderIfNeeded, bf.gz, emit, List.foldl, Bool.false_eq_true, if_false, gzFlush,
         Raw.write, Raw.writeHeader, Raw.flush, bf.rc, bf.body, bf.snaps, hwh', List.nil_append,
         List.cons_append]
@@ -605,7 +605,7 @@ theorem respFlush_inv (m : Nat) (g : Ghost) (s : St) (h : Inv m g s) :
   | gz w items h hm st cl z =>
     have hds : onlyDS (items ++ [.gzData s.gz.pending, .gzSync]) = true := by
       simp [onlyDS_append, z.ds, onlyDS]
-    simp only [respFlush, h, grwFlush, z.exc, Bool.not_true, Bool.false_eq_true, if_false, gzFlush,
+    simp only [writerFlush, h, grwFlush, z.exc, Bool.not_true, Bool.false_eq_true, if_false, gzFlush,
       z.gzc, gzHeaderIfNeeded, z.gzh, if_true, emit, z.gzr, List.foldl,
       Raw.write, Raw.writeHeader, Raw.flush, z.rc, z.body]
     have hbody : (Item.gzHeader :: items ++ [.gzData s.gz.pending]) ++ [.gzSync]
@@ -624,6 +624,24 @@ theorem respFlush_inv (m : Nat) (g : Ghost) (s : St) (h : Inv m g s) :
         rw [canon_open _ hds]
         simp [lenient, dataOf_append, dataOf, ← z.data]
       · simp [Ghost.flushed]
+
+theorem Ghost.choose_flushed (g : Ghost) (c : Nat) : (g.choose c).flushed = { g.choose c with F := g.F ++ [g.W] } := by
+  cases hg : g.ch <;> simp [Ghost.flushed, Ghost.choose, hg]
+
+/-- `Response.Flush`: commit (if that has not happened yet), then flush -/
+theorem respFlush_inv (m : Nat) (g : Ghost) (s : St) (h : Inv m g s) :
+    Inv m g.flushed (respFlush s) := by
+  unfold respFlush
+  by_cases hc : s.committed = true
+  · simp only [hc, if_true]
+    exact writerFlush_inv m g s h
+  · have hc' : s.committed = false := by simpa using hc
+    simp only [hc', Bool.false_eq_true, if_false, h.status200 hc']
+    have h1 := writerFlush_inv m _ _ (respWriteHeader_inv m g s 200 h)
+    have : (g.choose 200).flushed = g.flushed := by
+      rw [Ghost.choose_flushed]; rfl
+    rw [this] at h1
+    exact h1
 
 /-! ## ghost run of a program -/
 
@@ -1130,7 +1148,12 @@ theorem step_grw_none (s : St) (op : Op) (h : s.grw = none) : (step s op).1.grw 
   | setLen n => exact h
   | writeHeader c => exact respWriteHeader_grw_none s c h
   | write b => exact respWrite_grw_none s b h
-  | flush => simp [step, respFlush, h]
+  | flush =>
+    have h' : (if s.committed = true then s else respWriteHeader s (if s.status == 0 then 200 else s.status)).grw = none := by
+      split
+      · exact h
+      · exact respWriteHeader_grw_none s _ h
+    simp only [step, respFlush, writerFlush, h']
   | stream c cs => exact copyChunks_grw_none _ _ (respWriteHeader_grw_none s c h)
   | streamWT c d =>
     simp only [step]
@@ -1360,9 +1383,15 @@ theorem step_grw_some (s : St) (op : Op) (h : s.grw.isSome = true) : (step s op)
   | writeHeader c => exact respWriteHeader_grw_some s c h
   | write b => exact respWrite_grw_some s b h
   | flush =>
-    cases hg : s.grw with
-    | none => rw [hg] at h; exact Bool.noConfusion h
-    | some w => simp [step, respFlush, hg, grwFlush]
+    have h' : (if s.committed = true then s else respWriteHeader s (if s.status == 0 then 200 else s.status)).grw.isSome = true := by
+      split
+      · exact h
+      · exact respWriteHeader_grw_some s _ h
+    simp only [step, respFlush, writerFlush]
+    generalize (if s.committed = true then s else respWriteHeader s (if s.status == 0 then 200 else s.status)) = s' at h'
+    cases hg : s'.grw with
+    | none => rw [hg] at h'; exact Bool.noConfusion h'
+    | some w => simp [grwFlush]
   | stream c cs => exact copyChunks_grw_some _ _ (respWriteHeader_grw_some s c h)
   | streamWT c d =>
     simp only [step]
